@@ -49,7 +49,7 @@ def random_mtl_program(rng: random.Random):
     for t in range(rng.randint(1, 3)):
         f = rng.choice(feats)
         nat = set()
-        kind = rng.choice(["own", "own", "reuse", "noparam", "both", "around", "nofeat"])
+        kind = rng.choice(["own", "own", "reuse", "noparam", "both", "around", "nofeat", "twobias"])
         n = len(prog)
 
         def add(nd, sz):
@@ -89,6 +89,12 @@ def random_mtl_program(rng: random.Random):
             b = add({"op": "mul", "a": a, "b": p}, 1)
             c = reduce(feats[1])
             loss = add({"op": "add", "a": b, "b": c}, 1)
+        elif kind == "twobias":
+            p = new_leaf(sizes[f - 1])
+            q = new_leaf(sizes[f - 1])
+            s2 = add({"op": "add", "a": p, "b": q}, sizes[f - 1])
+            h = add({"op": "add", "a": f, "b": s2}, sizes[f - 1])
+            loss = reduce(h)
         elif kind == "around":
             s = rng.choice(trunk_rg_leaves)
             a = reduce(f)
